@@ -19,6 +19,14 @@ warnings.simplefilter("ignore")
 RET_TRUTHY = {0: False, 1: True, 2: False, 3: False, 4: False, 5: True, 6: True, 7: False, 8: True}
 
 
+# user_data / user argument values of the widget-level stream (index -> value); falsy non-None values included
+VALS = [None, 0, False, "", 0.0, (), 1, True, "x", 7, (1,), "0"]
+
+
+def vrepr(v):
+    return "%s:%r" % (type(v).__name__, v)
+
+
 def retval(code):
     return [False, True, None, 0, "", "x", 7, [], [0]][code]
 
@@ -96,15 +104,47 @@ def errcode(e):
     return -9
 
 
-def mk_cls(truthy):
-    if truthy:
-        class Sender:
-            pass
-    else:
-        class Sender:
-            def __bool__(self):
-                return False
-    return Sender
+def cls_spec(c):
+    """a sender class of a case: truthiness, parent class index (-1: none), declared with the MetaSignals
+    metaclass or not, the `signals` list of its body (None: no such attribute).  An int is a plain class."""
+    if isinstance(c, dict):
+        return bool(c.get("t", 1)), c.get("p", -1), bool(c.get("m", 0)), c.get("sig")
+    return bool(c), -1, False, None
+
+
+def meta_info(specs):
+    """For classes created through urwid.MetaSignals (directly, or by subclassing such a class): the names the
+    metaclass registers at class creation = the class body's `signals` followed by the `signals` attribute of the
+    base class, without duplicates (this is what the metaclass documents: 'including signals in superclasses').
+    Returns {class index: names} in class order."""
+    attr, is_meta, out = {}, {}, {}
+    for i, c in enumerate(specs):
+        _, p, m, sig = cls_spec(c)
+        is_meta[i] = m or (p >= 0 and is_meta[p])
+        inherited = attr.get(p, []) if p >= 0 else []
+        if is_meta[i]:
+            own = list(sig) if sig is not None else []
+            out[i] = list(dict.fromkeys(own + inherited))
+            attr[i] = own + inherited if sig is not None else inherited
+        else:
+            attr[i] = inherited
+    return out
+
+
+def mk_classes(specs, urwid):
+    import types
+    classes = []
+    for c in specs:
+        truthy, p, m, sig = cls_spec(c)
+        ns = {}
+        if not truthy:
+            ns["__bool__"] = lambda self: False
+        if sig is not None:
+            ns["signals"] = [sname(n) for n in sig]
+        bases = (classes[p],) if p >= 0 else ()
+        kw = {"metaclass": urwid.MetaSignals} if m else {}
+        classes.append(types.new_class("Sender", bases, kw, lambda d, ns=ns: d.update(ns)))
+    return classes
 
 
 class Run:
@@ -115,7 +155,9 @@ class Run:
         self.depth = 0
         self.ncalls = 0
         self.fuel = case["fuel"]
-        self.classes = [mk_cls(t) for t in case["classes"]]
+        self.classes = mk_classes(case["classes"], sig)
+        for c, names in meta_info(case["classes"]).items():
+            self.trace.append([1, c, len(names)] + list(names))     # registered by the metaclass
         self.senders = [self.classes[c]() for c in case["senders"]]
         self.reg = {}
         self.wr = {}
@@ -296,9 +338,178 @@ class C14(core.Check):
         "per-case callback-invocation budget, which the harness imposes on implementation and model alike, are not exhausted)",
     ]
 
+    # ---------- implementation: widget-level streams ----------
+    def run_widget(self, case):
+        import urwid
+        gc.freeze()
+        log = []
+        widgets = []
+
+        def canon(a):
+            for i, w in enumerate(widgets):
+                if a is w:
+                    return ["w", i]
+            if isinstance(a, W):
+                return ["o", a.i]
+            return ["v", vrepr(a)]
+
+        class CBW:
+            def __init__(self, cb, serial):
+                self.cb, self.serial = cb, serial
+
+            def __eq__(self, other):
+                return isinstance(other, CBW) and other.cb == self.cb
+
+            def __hash__(self):
+                return hash(self.cb)
+
+            def __call__(self, *args):
+                log.append([self.serial, self.cb, [canon(a) for a in args]])
+
+        class ButtonSub(urwid.Button):
+            signals = ["extra"]
+
+        objs = {0: W(0), 1: W(1)}
+        group = []
+        serial = 0
+        size = (15,)
+        for k, cb, d, state in case["widgets"]:
+            f = None
+            if cb is not None and k in ("button", "button_sub", "checkbox", "radio"):
+                f = CBW(cb, serial)
+                serial += 1
+            if k == "button":
+                w = urwid.Button("b", f, VALS[d])
+            elif k == "button_sub":
+                w = ButtonSub("b", f, VALS[d])
+            elif k == "checkbox":
+                w = urwid.CheckBox("c", bool(state), False, f, VALS[d])
+            elif k == "radio":
+                w = urwid.RadioButton(group, "r", bool(state), f, VALS[d])
+            elif k == "edit":
+                w = urwid.Edit("", "ab")
+            elif k == "intedit":
+                w = urwid.IntEdit("", 12)
+            else:
+                raise core.MachineryError("unknown widget kind " + str(k))
+            widgets.append(w)
+
+        def states():
+            out = []
+            for (k, _, _, _), w in zip(case["widgets"], widgets):
+                if k in ("checkbox", "radio"):
+                    out.append(vrepr(w.get_state()))
+                elif k in ("edit", "intedit"):
+                    out.append(vrepr(w.get_edit_text()))
+                else:
+                    out.append(None)
+            return out
+
+        outs = []
+        for st in case["steps"]:
+            if st[0] in ("con", "dis"):
+                _, wi, sig, cb, ua, us, ws = st
+                if any(o not in objs for o in ws):
+                    outs.append("skip")
+                    continue
+                fn = urwid.connect_signal if st[0] == "con" else urwid.disconnect_signal
+                f = CBW(cb, serial if st[0] == "con" else -1)
+                if st[0] == "con":
+                    serial += 1
+                try:
+                    fn(widgets[wi], sig, f, None if ua is None else VALS[ua],
+                       weak_args=[objs[o] for o in ws], user_args=[VALS[i] for i in us])
+                    outs.append("ok")
+                except Exception as e:
+                    outs.append(type(e).__name__)
+            elif st[0] == "kill":
+                objs.pop(st[1], None)
+                gc.collect()
+                outs.append("ok")
+            elif st[0] == "act":
+                _, wi, how = st
+                w = widgets[wi]
+                before = states()
+                del log[:]
+                exc = None
+                try:
+                    if how == "enter":
+                        w.keypress(size, "enter")
+                    elif how in ("space", "key"):
+                        w.keypress(size, " ")
+                    elif how == "mouse":
+                        w.mouse_event(size, "mouse press", 1, 1, 0, True)
+                    elif how == "toggle":
+                        w.toggle_state()
+                    elif how in ("set0", "set1"):
+                        w.set_state(how == "set1")
+                    elif how.startswith("set:"):
+                        w.set_edit_text(self.TEXTS[int(how[4:])])
+                    elif how.startswith("key:"):
+                        w.keypress(size, how[4:])
+                    else:
+                        raise core.MachineryError("unknown action " + how)
+                except core.MachineryError:
+                    raise
+                except Exception as e:
+                    exc = type(e).__name__
+                outs.append({"calls": [list(c) for c in log], "before": before, "after": states(), "exc": exc})
+            else:
+                raise core.MachineryError("unknown step " + str(st[0]))
+        return {"outs": outs}
+
+    def run_listbox(self, case):
+        import urwid
+        gc.freeze()
+        counts = []
+
+        class CountingListBox(urwid.ListBox):
+            idx = 0
+
+            def _invalidate(self):
+                counts[self.idx] += 1
+                super()._invalidate()
+
+        walkers = [(urwid.SimpleFocusListWalker if k == "sflw" else urwid.SimpleListWalker)([urwid.Text("a")])
+                   for k in case["walkers"]]
+        lbs = []
+        for i, w in enumerate(case["lbs"]):
+            counts.append(0)
+            lb = CountingListBox(walkers[w])
+            lb.idx = i
+            lbs.append(lb)
+        outs = []
+        for st in case["steps"]:
+            for i in range(len(counts)):
+                counts[i] = 0
+            exc = None
+            try:
+                if st[0] == "body":
+                    lbs[st[1]].body = walkers[st[2]]
+                elif st[0] == "same":
+                    lbs[st[1]].body = lbs[st[1]].body
+                elif st[0] == "emit":
+                    urwid.emit_signal(walkers[st[1]], "modified")
+                elif st[0] == "append":
+                    walkers[st[1]].append(urwid.Text("x"))
+                elif st[0] == "pop":
+                    walkers[st[1]].pop()
+                else:
+                    raise core.MachineryError("unknown step " + str(st[0]))
+            except core.MachineryError:
+                raise
+            except Exception as e:
+                exc = type(e).__name__
+            outs.append([list(counts), exc])
+        return {"outs": outs}
+
     # ---------- implementation ----------
     def run_impl(self, case):
         import urwid
+        if case.get("kind") == "widget":
+            return self.run_widget(case)
+        if case.get("kind") == "listbox":
+            return self.run_listbox(case)
         # every gc.collect() below must only look at this case's objects: park everything that
         # exists now (results kept by the pipeline included) in the permanent generation
         if not _frozen:
@@ -355,8 +566,10 @@ class C14(core.Check):
         raise core.MachineryError("unknown op " + str(k))
 
     def encode(self, case):
+        if case.get("kind") in ("widget", "listbox"):
+            return None          # widget-level streams are judged by the oracle only
         l = [case["fuel"], case["nnames"], case["maxcalls"]]
-        l += [len(case["classes"])] + [1 if t else 0 for t in case["classes"]]
+        l += [len(case["classes"])] + [1 if cls_spec(c)[0] else 0 for c in case["classes"]]
         l += [len(case["senders"])] + list(case["senders"])
         l += [len(case["objs"])] + [1 if c else 0 for c in case["objs"]]
         l.append(len(case["cbs"]))
@@ -364,8 +577,10 @@ class C14(core.Check):
             l += [ret, len(ops)]
             for op in ops:
                 l += self.enc_op(op)
-        l.append(len(case["ops"]))
-        for op in case["ops"]:
+        # classes declared through the MetaSignals metaclass are registered when they are created
+        pre = [["reg", c, names] for c, names in meta_info(case["classes"]).items()]
+        l.append(len(pre) + len(case["ops"]))
+        for op in pre + list(case["ops"]):
             l += self.enc_op(op)
         return l
 
@@ -393,7 +608,132 @@ class C14(core.Check):
                 "heap": {"senders_kept": [], "objs_kept": [], "unraisable": []}}
 
     # ---------- oracle: a plain reference list per (sender, name), written from the property text ----------
+    def analyse_widget(self, case, res):
+        """reference: per (widget, signal) the list of handlers the case connected (constructor callbacks are
+        connect_signal(widget, 'click'/'change', callback, user_data), as the widget docstrings say)"""
+        msgs, obs = [], {}
+
+        def note(k, n=1):
+            obs[k] = obs.get(k, 0) + n
+
+        hs = []                     # by serial
+        kinds = [w[0] for w in case["widgets"]]
+
+        def val(i):
+            return None if i is None else VALS[i]
+
+        for wi, (k, cb, d, _) in enumerate(case["widgets"]):
+            if cb is not None and k in ("button", "button_sub", "checkbox", "radio"):
+                hs.append({"w": wi, "sig": self.WIDGET_SIGNALS[k][0], "cb": cb, "ua": VALS[d], "us": [], "ws": [], "state": "on"})
+        for st, out in zip(case["steps"], res["outs"]):
+            if st[0] in ("con", "dis"):
+                _, wi, sig, cb, ua, us, ws = st
+                if out == "skip":
+                    continue
+                if st[0] == "con":
+                    supported = sig in self.WIDGET_SIGNALS[kinds[wi]]
+                    h = {"w": wi, "sig": sig, "cb": cb, "ua": val(ua), "us": [VALS[i] for i in us], "ws": list(ws),
+                         "state": "on" if out == "ok" else "never"}
+                    hs.append(h)
+                    if not supported:
+                        note("widget_connect_unregistered")
+                        if out == "ok":
+                            msgs.append(f"connect to signal {sig!r}, not registered for a {kinds[wi]}, was accepted")
+                    continue
+                cands = [h for h in hs if h["state"] in ("on", "maybe") and (h["w"], h["sig"], h["cb"], h["ws"]) == (wi, sig, cb, list(ws))
+                         and h["ua"] == val(ua) and h["us"] == [VALS[i] for i in us]]
+                if out != "ok":
+                    if not cands:
+                        msgs.append(f"disconnect of a handler that is not connected raised {out}")
+                    continue
+                strict = [h for h in cands if vrepr(h["ua"]) == vrepr(val(ua)) and [vrepr(x) for x in h["us"]] == [vrepr(VALS[i]) for i in us]]
+                if not cands:
+                    note("widget_disconnect_absent")
+                elif len(cands) == 1 and strict and cands[0]["state"] == "on":
+                    cands[0]["state"] = "off"
+                    note("widget_disconnect")
+                else:
+                    note("widget_disconnect_ambiguous")
+                    for h in cands:
+                        h["state"] = "maybe"
+            elif st[0] == "kill":
+                for h in hs:
+                    if st[1] in h["ws"] and h["state"] in ("on", "maybe"):
+                        h["state"] = "dead"
+            elif st[0] == "act":
+                _, wi, how = st
+                note("widget_activations")
+                calls = out["calls"]
+                for serial, cb, args in calls:
+                    note("widget_calls")
+                    if not (0 <= serial < len(hs)):
+                        msgs.append(f"a callback that was never connected was called (serial {serial})")
+                        continue
+                    h = hs[serial]
+                    if h["state"] in ("off", "never"):
+                        msgs.append(f"{kinds[h['w']]} {h['sig']!r}: a handler that was disconnected before the emit was called")
+                    elif h["state"] == "dead":
+                        msgs.append(f"{kinds[h['w']]} {h['sig']!r}: a handler whose weak argument died was called")
+                if out["exc"]:
+                    note("widget_action_raised")
+                    continue
+                expected = []
+                for j, k in enumerate(kinds):
+                    b, a = out["before"][j], out["after"][j]
+                    if k in ("button", "button_sub"):
+                        if j == wi:
+                            expected.append((j, "click", [["w", j]]))
+                    elif b != a:
+                        expected.append((j, "change", [["w", j], ["v", a]]))
+                        expected.append((j, "postchange", [["w", j], ["v", b]]))
+                for j, sig, E in expected:
+                    H = [s for s, h in enumerate(hs) if (h["w"], h["sig"]) == (j, sig) and h["state"] == "on"]
+                    got = [c for c in calls if c[0] in H]
+                    if [c[0] for c in got] != H:
+                        for s in H:
+                            n = sum(1 for c in got if c[0] == s)
+                            if n != 1:
+                                msgs.append(f"{kinds[j]} {sig!r}: a connected handler was called {n} times by one emit")
+                        if sorted(c[0] for c in got) == sorted(H):
+                            msgs.append(f"{kinds[j]} {sig!r}: handlers called out of connection order")
+                        continue
+                    for s, cb, args in got:
+                        h = hs[s]
+                        exp = [["o", o] for o in h["ws"]] + [["v", vrepr(x)] for x in h["us"]] + E \
+                            + ([["v", vrepr(h["ua"])]] if h["ua"] is not None else [])
+                        if args != exp:
+                            msgs.append(f"{kinds[j]} {sig!r}: handler connected with user_arg={h['ua']!r} user_args={h['us']!r} "
+                                        f"received {args}, expected {exp}")
+        return msgs, obs
+
+    def analyse_listbox(self, case, res):
+        msgs, obs = [], {}
+        body = list(case["lbs"])
+        for st, (counts, exc) in zip(case["steps"], res["outs"]):
+            if st[0] == "body":
+                if exc is None:
+                    body[st[1]] = st[2]
+                obs["listbox_body_swaps"] = obs.get("listbox_body_swaps", 0) + 1
+                continue
+            if st[0] == "same" or exc is not None:
+                continue
+            w = st[1]
+            for i, n in enumerate(counts):
+                if body[i] != w and n:
+                    msgs.append(f"a list walker that is no longer (or never was) the body of list box {i} reached its "
+                                f"_invalidate handler {n} time(s) on {st[0]}")
+                elif body[i] == w and st[0] == "emit" and n != 1:
+                    msgs.append(f"emit of 'modified' by the body of list box {i} called its handler {n} times")
+                elif body[i] == w and n == 0:
+                    msgs.append(f"{st[0]} on the body of list box {i} did not reach its 'modified' handler")
+            obs["listbox_emits"] = obs.get("listbox_emits", 0) + 1
+        return msgs, obs
+
     def analyse(self, case, res):
+        if case.get("kind") == "widget":
+            return self.analyse_widget(case, res)
+        if case.get("kind") == "listbox":
+            return self.analyse_listbox(case, res)
         msgs, obs = [], {}
 
         def note(k, n=1):
@@ -591,6 +931,10 @@ class C14(core.Check):
         return self.analyse(case, res)[0]
 
     def nontrivial(self, case, res):
+        if case.get("kind") == "widget":
+            return any(isinstance(o, dict) and o["calls"] for o in res["outs"])
+        if case.get("kind") == "listbox":
+            return any(any(o[0]) for o in res["outs"])
         return any(e[0] == 7 for e in res.get("trace", []))
 
     def signature(self, case, msg):
@@ -735,16 +1079,26 @@ class C14(core.Check):
             return ["gc"]
         if in_script:
             return ["emit", s, n, []]
-        return ["reg", rng.randrange(2), rng.sample(range(nn), rng.randrange(nn + 1))]
+        return ["reg", rng.randrange(3), rng.sample(range(nn), rng.randrange(nn + 1))]
 
     def random_case(self, rng, nops):
         ns = rng.choice([1, 1, 2, 3])
         nn = rng.choice([1, 2, 3])
         ncb = rng.choice([1, 2, 3, 5])
         nobj = rng.choice([0, 1, 2, 4])
-        ncls = 2
-        classes = [1, rng.choice([0, 1, 1])]
-        senders = [rng.choice([0, 0, 1]) for _ in range(ns)]
+        ncls = 3
+        if rng.random() < 0.5:
+            classes = [1, rng.choice([0, 1, 1]), 1]
+        else:
+            # subclasses of registered classes, declared plainly or through the MetaSignals metaclass
+            def spec(i):
+                m = rng.random() < 0.4
+                d = {"t": rng.choice([0, 1, 1, 1]), "p": rng.randrange(-1, i), "m": 1 if m else 0}
+                if m or rng.random() < 0.2:
+                    d["sig"] = [x for x in range(nn) if rng.random() < 0.5]
+                return d
+            classes = [spec(i) for i in range(3)]
+        senders = [rng.choice([0, 0, 1, 2]) for _ in range(ns)]
         objs = [rng.choice([0, 0, 1]) for _ in range(nobj)]
         nkeys = nops // 2
         cbs = []
@@ -773,7 +1127,136 @@ class C14(core.Check):
                 "maxcalls": rng.choice([3, 40, 150, 150, 150]), "classes": classes, "senders": senders,
                 "objs": objs, "cbs": cbs, "ops": ops}
 
+
+    # ---------- class hierarchies: registration is per class ----------
+    def hier_cases(self):
+        """classes A <- B <- C; A plain or declared with MetaSignals, B plain / with its own signals list / metaclass;
+        explicit register_signal calls on A and/or B; then every sender class x every name is connected and emitted"""
+        for sa in (None, [], [0], [0, 1]):
+            for bkind in ("plain", "sig1", "meta2", "meta_empty"):
+                for ra in (None, [0], [2]):
+                    for rb in (None, [1], []):
+                        a = {"t": 1, "p": -1, "m": 0} if sa is None else {"t": 1, "p": -1, "m": 1, "sig": sa}
+                        b = {"t": 1, "p": 0, "m": 0}
+                        if bkind == "sig1":
+                            b["sig"] = [1]
+                        elif bkind == "meta2":
+                            b.update(m=1, sig=[2])
+                        elif bkind == "meta_empty":
+                            b.update(m=1, sig=[])
+                        c = {"t": 1, "p": 1, "m": 0}
+                        ops = []
+                        if ra is not None:
+                            ops.append(["reg", 0, ra])
+                        if rb is not None:
+                            ops.append(["reg", 1, rb])
+                        for s in range(3):
+                            for n in range(3):
+                                ops.append(["con", s, n, 0, None, [], [10 * s + n]])
+                        for s in range(3):
+                            for n in range(3):
+                                ops.append(["emit", s, n, [5]])
+                        yield {"kind": "hierarchy", "fuel": 1, "nnames": 3, "maxcalls": 50, "classes": [a, b, c],
+                               "senders": [0, 1, 2], "objs": [], "cbs": [[1, []]], "ops": ops}
+
+    # ---------- widget-level stream (oracle only: there is no model of the widgets) ----------
+    WIDGET_SIGNALS = {"button": ["click"], "button_sub": ["click", "extra"], "checkbox": ["change", "postchange"],
+                      "radio": ["change", "postchange"], "edit": ["change", "postchange"], "intedit": ["change", "postchange"]}
+    SIGNAMES = ["click", "change", "postchange", "extra", "nosuch"]
+    TEXTS = ["", "a", "ab", "12", "7"]
+
+    def random_widget_case(self, rng):
+        kinds = rng.choice([["button"], ["button"], ["button_sub"], ["checkbox"], ["checkbox"], ["radio", "radio", "radio"],
+                            ["radio", "radio"], ["edit"], ["edit"], ["intedit"], ["button", "checkbox", "edit"]])
+        widgets = []
+        for k in kinds:
+            cb = rng.choice([None, 0, 0, 1])
+            widgets.append([k, cb, rng.randrange(len(VALS)) if cb is not None else 0, rng.choice([0, 1])])
+        steps = []
+        conns = []
+        for _ in range(rng.choice([2, 4, 6, 9])):
+            wi = rng.randrange(len(widgets))
+            k = widgets[wi][0]
+            r = rng.random()
+            if r < 0.3:
+                sig = rng.choice(self.WIDGET_SIGNALS[k] * 3 + self.SIGNAMES)
+                ua = rng.choice([None, None] + list(range(len(VALS))))
+                us = [rng.randrange(len(VALS)) for _ in range(rng.choice([0, 0, 1, 2]))]
+                ws = [rng.randrange(2)] if rng.random() < 0.2 else []
+                st = ["con", wi, sig, rng.randrange(3), ua, us, ws]
+                conns.append(st)
+                steps.append(st)
+            elif r < 0.45:
+                prev = conns + [["con", i, self.WIDGET_SIGNALS[w[0]][0], w[1], w[2], [], []]
+                                for i, w in enumerate(widgets) if w[1] is not None]
+                if prev and rng.random() < 0.8:
+                    st = list(rng.choice(prev))
+                    st[0] = "dis"
+                    if rng.random() < 0.2:
+                        st[4] = rng.choice([None] + list(range(len(VALS))))
+                else:
+                    st = ["dis", wi, rng.choice(self.WIDGET_SIGNALS[k]), rng.randrange(3),
+                          rng.choice([None] + list(range(len(VALS)))), [], []]
+                steps.append(st)
+            elif r < 0.5:
+                steps.append(["kill", rng.randrange(2)])
+            else:
+                if k in ("button", "button_sub"):
+                    how = rng.choice(["enter", "space", "mouse"])
+                elif k in ("checkbox", "radio"):
+                    how = rng.choice(["toggle", "key", "mouse", "set0", "set1"])
+                else:
+                    how = rng.choice(["set:%d" % rng.randrange(len(self.TEXTS)), "key:1", "key:x", "key:backspace"])
+                steps.append(["act", wi, how])
+        for wi, w in enumerate(widgets):
+            steps.append(["act", wi, {"button": "enter", "button_sub": "mouse", "checkbox": "toggle", "radio": "set1",
+                                      "edit": "set:2", "intedit": "set:4"}[w[0]]])
+        return {"kind": "widget", "widgets": widgets, "steps": steps}
+
+    def widget_ctor_cases(self):
+        """every constructor-callback widget x every user_data value: activate, disconnect by the same arguments, activate"""
+        for k, how in (("button", "enter"), ("button", "mouse"), ("button_sub", "space"), ("checkbox", "toggle"),
+                       ("checkbox", "key"), ("radio", "set1"), ("radio", "mouse")):
+            sig = self.WIDGET_SIGNALS[k][0]
+            for d in range(len(VALS)):
+                for state in (0, 1):
+                    if k in ("button", "button_sub") and state:
+                        continue
+                    ws = [[k, 0, d, state]] + ([[k, 1, d, 0]] if k == "radio" else [])
+                    yield {"kind": "widget", "widgets": ws,
+                           "steps": [["act", 0, how], ["con", 0, sig, 1, None, [d], []], ["act", 0, how if k[0] == "b" else "toggle"],
+                                     ["dis", 0, sig, 0, d, [], []], ["act", 0, how if k[0] == "b" else "set0"],
+                                     ["act", 0, how if k[0] == "b" else "set1"]]}
+
+    def random_listbox_case(self, rng):
+        nw = rng.choice([2, 3])
+        walkers = [rng.choice(["sflw", "slw"]) for _ in range(nw)]
+        lbs = [rng.randrange(nw) for _ in range(rng.choice([1, 1, 2]))]
+        steps = []
+        for _ in range(rng.choice([3, 6, 10])):
+            r = rng.random()
+            if r < 0.3:
+                steps.append(["body", rng.randrange(len(lbs)), rng.randrange(nw)])
+            elif r < 0.6:
+                steps.append(["emit", rng.randrange(nw)])
+            elif r < 0.8:
+                steps.append(["append", rng.randrange(nw)])
+            elif r < 0.9:
+                steps.append(["pop", rng.randrange(nw)])
+            else:
+                steps.append(["same", rng.randrange(len(lbs))])
+        for w in range(nw):
+            steps.append(["emit", w])
+            steps.append(["append", w])
+        return {"kind": "listbox", "walkers": walkers, "lbs": lbs, "steps": steps}
+
     def cases(self, rng, tier):
+        yield from self.hier_cases()
+        yield from self.widget_ctor_cases()
+        for _ in range(1500 if tier == "quick" else 15000):
+            yield self.random_widget_case(rng)
+        for _ in range(400 if tier == "quick" else 4000):
+            yield self.random_listbox_case(rng)
         if tier == "quick":
             yield from self.exhaustive(3, rng, 0.05)
             for _ in range(8000):
@@ -787,8 +1270,17 @@ class C14(core.Check):
         yield from self.exhaustive(3, rng, 0)
         while True:
             yield self.random_case(rng, rng.choice([2, 3, 5, 8]))
+            yield self.random_widget_case(rng)
+            yield self.random_listbox_case(rng)
 
     def shrink_candidates(self, case):
+        if case.get("kind") in ("widget", "listbox"):
+            st = case["steps"]
+            for i in range(len(st)):
+                c = dict(case)
+                c["steps"] = st[:i] + st[i + 1:]
+                yield c
+            return
         ops = case["ops"]
         for i in range(len(ops)):
             c = dict(case)
